@@ -1004,11 +1004,10 @@ pub fn supplied_records(plan: &ResolvePlan, obs: &Observations) -> BTreeMap<(Str
         }
     };
     for (_, bytes) in &obs.recv_log {
-        // the code decodes its whole 512-byte buffer
-        let mut buf = vec![0u8; 512];
+        // what the datagram itself says, not what a larger buffer around it
+        // may complete it to
         let n = bytes.len().min(512);
-        buf[..n].copy_from_slice(&bytes[..n]);
-        if let Ok(m) = Message::from_octets(&buf) {
+        if let Ok(m) = Message::from_octets(&bytes[..n]) {
             add_msg(&m);
         }
     }
